@@ -16,8 +16,10 @@ Definition pv_h (path : str) : str :=
                    | _ => p
                    end
   end.
-(* %H: get_starting_point = path.ancestors().nth(depth) *)
-Definition pv_H (path : str) (depth : nat) : option str := ancestor (S (length path)) path depth.
+(* %H: the starting point as it was given - process_dir records its length, and every path reported below it
+   begins with exactly that text (C18: entry_path_prefix) *)
+Definition pv_H (path : str) (root_len : nat) : option str :=
+  if root_len <=? length path then Some (firstn root_len path) else None.
 (* %P: path.strip_prefix(starting point) *)
-Definition pv_P (path : str) (depth : nat) : option str :=
-  match pv_H path depth with Some h => strip_prefix path h | None => None end.
+Definition pv_P (path : str) (root_len : nat) : option str :=
+  match pv_H path root_len with Some h => strip_prefix path h | None => None end.
